@@ -29,8 +29,12 @@ def gen(rng):
     installed = []      # in order of addition
     universe = [(i, v) for i in IDS for v in VERS]
     for _ in range(rng.randint(3, 8)):
-        if installed and rng.random() < 0.2:
-            spec = rng.choice(installed)
+        if installed and rng.random() < 0.5:
+            # looking at the lexicons between changes must not influence later selections
+            ops.append({'k': 'lexicons', 'lexicon': rng.choice(['*', None, installed[-1][0], f'{installed[-1][0]}:{installed[-1][1]}']),
+                        'lang': rng.choice([None, None, installed[-1][2]])})
+        if installed and rng.random() < 0.3:
+            spec = installed[-1] if rng.random() < 0.5 else rng.choice(installed)      # the newest: its rowid is reused
             ops.append({'k': 'remove', 'spec': f'{spec[0]}:{spec[1]}'})
             installed.remove(spec)
         else:
